@@ -43,7 +43,7 @@ def fmt_ob(arr, template_refs, focus='spelling'):
     """arr: list of kinds.  template_refs: None | list of kinds referenced by the description template."""
     arr = list(arr)
 
-    def core(n1='mer', n2='Ty', up=False, b1=0, b2=1, star=False, sign=0, df=''):
+    def core(n1='mer', n2='Ty', up=False, b1=0, b2=1, star=False, sign=0, df='', tcase=0):
         from tally.format_parser import parse_format_string, RESERVED_NAMES
         if n1.lower() in RESERVED_NAMES or n2.lower() in RESERVED_NAMES or n1.lower() == n2.lower():
             return post(True)        # spelled-alike names are covered by the duplicate arrangements
@@ -83,6 +83,30 @@ def fmt_ob(arr, template_refs, focus='spelling'):
                 parse_format_string(text, prime)
             except ValueError:
                 pass
+        if tcase and templ is not None and expect == 'ok':
+            # the template spells its references in another letter case than the columns were captured under: rejecting that is fine,
+            # accepting it is fine too - but then every row must be read with the template filled in (accepted => usable)
+            templ2 = ' / '.join('{' + (names[r].upper() if tcase == 1 else names[r].title()) + '}' for r in template_refs)
+            if templ2 != templ:
+                try:
+                    spec2 = parse_format_string(text, templ2)
+                except ValueError:
+                    return post(True)
+                from harness import C05
+                from tally import parsers
+                cells = {'date': '01/02/2024', 'description': 'D', 'amount': '5', 'location': 'L', 'c1': 'V1', 'c2': 'V2', 'skip': 'x'}
+                spec2.has_header = False
+                log = []
+                saved = C05._install([[cells[k] for k in arr]], log, [True], [0], [5.0])
+                try:
+                    try:
+                        out = parsers.parse_generic_csv('f.csv', spec2, [], source_name='S')
+                    except (KeyError, IndexError, AttributeError, ValueError):
+                        return post(False)
+                finally:
+                    C05._restore(saved)
+                want = ' / '.join({'c1': 'V1', 'c2': 'V2'}[r] for r in template_refs)
+                return post(len(out) == 1 and out[0]['raw_description'] == want)
         try:
             spec = parse_format_string(text, templ)
         except ValueError:
@@ -105,12 +129,14 @@ def fmt_ob(arr, template_refs, focus='spelling'):
             ok = ok and (spec.custom_captures or {}) == customs and not spec.extra_fields
         return post(ok)
 
-    def ob_spelling(up: bool, lead: bool, trail: bool, star: bool, sign: int) -> bool:
+    def ob_spelling(up: bool, lead: bool, trail: bool, star: bool, sign: int, tcase: int) -> bool:
         """
-        pre: 0 <= sign <= 2
+        pre: 0 <= sign <= 2 and 0 <= tcase <= 2
         post: _
         """
-        return core(up=up, b1=1 if lead else 0, b2=2 if trail else 0, star=star, sign=sign)
+        if template_refs is None:
+            tcase = 0
+        return core(up=up, b1=1 if lead else 0, b2=2 if trail else 0, star=star, sign=sign, tcase=tcase)
 
     def ob_names(n1: str) -> bool:
         """
